@@ -78,8 +78,12 @@ def main():
         rc, out = sh("git rev-parse HEAD", cwd=wt)
         rc, out2 = sh("git rev-parse HEAD", cwd="/repo")
         if out != out2:
-            print("worktree is not at /repo's HEAD")
-            return 2
+            # /repo has moved on (a fix commit): move the scratch worktree to the same commit, patch re-applied
+            pf = os.path.join(dest, "patch.diff")
+            rc, o = sh("git apply -R %s && git checkout -q --detach %s && git apply %s" % (pf, out2.strip(), pf), cwd=wt)
+            if rc != 0:
+                print("cannot move the worktree to /repo's HEAD:", o)
+                return 2
         envp = "VERIF_REPO=%s " % wt
         meta["checks_run_via"] = "VERIF_REPO=<scratch worktree at /repo's HEAD with the patch applied>"
     else:
